@@ -117,8 +117,108 @@ def overflow_attr(b):
     return "C06"
 
 
+# ---------------------------------------------------------------------------------------------
+# scaled family (C01 +,-,*,neg; C02 /,%,identity; C03 comparisons; C04 conversions)
+
+CTYPE = {(8, 1): "i8", (8, 0): "u8", (16, 1): "i16", (16, 0): "u16", (32, 1): "i32", (32, 0): "u32", (64, 1): "i64",
+         (64, 0): "u64"}
+
+SCALED_CORE_PAIRS = [
+    "SI<i32,-8,2>, SI<i16,-4,2>", "SI<i8,-70,2>, SI<i16,-65,2>", "SI<i32,-2,10>, SI<i32,0,10>", "SI<i32,-8,2>, i32",
+    "i64, SI<i16,-3,2>", "SI<u32,-8,2>, SI<i32,-8,2>", "SI<u8,0,2>, SI<i8,3,2>", "SI<i64,-40,2>, SI<i64,-20,2>",
+    "SI<u64,-63,2>, SI<u64,-60,2>", "SI<u16,5,2>, SI<u32,1,2>", "SI<i64,-3,10>, SI<i32,-1,10>", "SI<u16,-1,10>, u8",
+    "SI<cnl::elastic_integer<20>,-8,2>, SI<cnl::elastic_integer<10>,-3,2>",
+    "SI<cnl::elastic_integer<31>,-16,2>, SI<cnl::elastic_integer<31, unsigned>,-12,2>",
+    "SI<cnl::elastic_integer<7>,-70,2>, SI<cnl::elastic_integer<24>,-65,2>",
+    "SI<cnl::elastic_integer<40>,-30,2>, SI<cnl::elastic_integer<50>,-35,2>",
+    "SI<cnl::elastic_integer<12>,-2,10>, SI<cnl::elastic_integer<9>,0,10>",
+    "SI<cnl::overflow_integer<i32, cnl::native_overflow_tag>,-8,2>, SI<cnl::overflow_integer<i32, cnl::native_overflow_tag>,-6,2>",
+    "SI<cnl::rounding_integer<i32, cnl::native_rounding_tag>,-8,2>, SI<cnl::rounding_integer<i16, cnl::native_rounding_tag>,-6,2>",
+    "SI<cnl::int128_t,-70,2>, SI<i64,-60,2>", "SI<cnl::uint128_t,-100,2>, SI<cnl::uint128_t,-90,2>",
+    "SI<cnl::elastic_integer<20>,-8,2>, i32", "i16, SI<cnl::elastic_integer<20>,-8,2>",
+]
+SCALED_CORE_SINGLES = ["SI<i32,-8,2>", "SI<i64,-70,2>", "SI<u16,3,2>", "SI<i8,-7,2>", "SI<u64,-32,2>", "SI<i64,40,2>",
+                       "SI<cnl::elastic_integer<24>,-12,2>", "SI<cnl::elastic_integer<53>,-60,2>", "i32", "u64"]
+
+
+SCALED_CORE_CMPS = [
+    "cnl::elastic_integer<8, unsigned>, cnl::elastic_integer<7>", "cnl::elastic_integer<31>, cnl::elastic_integer<32, unsigned>",
+    "cnl::elastic_integer<63>, cnl::elastic_integer<64, unsigned>", "cnl::elastic_integer<16, unsigned>, cnl::elastic_integer<40>",
+    "cnl::elastic_integer<15>, cnl::elastic_integer<15, unsigned>", "cnl::elastic_integer<20>, i32", "u16, cnl::elastic_integer<9>",
+    "cnl::elastic_integer<3, i8>, cnl::elastic_integer<60, u8>",
+    "cnl::elastic_scaled_integer<20, cnl::power<-10>>, cnl::elastic_scaled_integer<12, cnl::power<-3>, unsigned>",
+]
+
+
+def lattice_rows():
+    path = vlib.gen_file("lattice", "GenLattice.tla", "GenLattice.cfg")
+    rows = []
+    with open(path) as f:
+        for line in f:
+            t = line.split()
+            if len(t) == 7:
+                rows.append(tuple(int(x) for x in t))
+    rows.sort()
+    return rows
+
+
+def scaled_inst_files(tier):
+    import random
+    rows = lattice_rows()
+    rnd = random.Random(vlib.seed() * 1000003 + 17)
+    npairs = 26 if tier == "quick" else 330
+    nsingles = 6 if tier == "quick" else 40
+    pick = rnd.sample(rows, npairs)
+    pairs = list(SCALED_CORE_PAIRS)
+    for lw, ls, le, rw, rs, re_, rx in pick:
+        pairs.append("SI<%s,%d,%d>, SI<%s,%d,%d>" % (CTYPE[(lw, ls)], le, rx, CTYPE[(rw, rs)], re_, rx))
+    singles = list(SCALED_CORE_SINGLES)
+    for lw, ls, le, rw, rs, re_, rx in rnd.sample([r for r in rows if r[6] == 2], nsingles):
+        singles.append("SI<%s,%d,2>" % (CTYPE[(lw, ls)], le))
+    items = ["pair_all<%s>(out, %d);" % (p, k + 1) for k, p in enumerate(pairs)] + \
+            ["single_all<%s>(out, %d);" % (p, k + 1001) for k, p in enumerate(singles)] + \
+            ["cmp_all<%s>(out, %d);" % (p, k + 2001) for k, p in enumerate(SCALED_CORE_CMPS)]
+    nfiles = vlib.NCPU if tier == "quick" else 2 * vlib.NCPU
+    d = os.path.join(vlib.BUILD, "gen")
+    files = []
+    for k in range(nfiles):
+        body = "\n".join(items[k::nfiles]) + "\n"
+        if not body.strip():
+            continue
+        p = os.path.join(d, "scaled-inst-%s.inc" % vlib.sha(body))
+        if not os.path.exists(p):
+            with open(p + ".tmp", "w") as f:
+                f.write(body)
+            os.replace(p + ".tmp", p)
+        files.append(p)
+    return files
+
+
+def scaled_jobs(tier):
+    jobs = []
+    for k, f in enumerate(scaled_inst_files(tier)):
+        # the same instantiations under g++; a rotating quarter also under clang++
+        jobs.append(dict(src="h_scaled.cpp", cc="gcc", tag="scaled-gcc-%d" % k, defines=['VERIF_INST_FILE="%s"' % f]))
+        if tier == "thorough" or (k + vlib.seed()) % 4 == 0:
+            jobs.append(dict(src="h_scaled.cpp", cc="clang", tag="scaled-clang-%d" % k, defines=['VERIF_INST_FILE="%s"' % f]))
+    return jobs
+
+
+def scaled_attr(b):
+    k = b["event"].get("e")
+    op = (b.get("inst") or {}).get("op")
+    if k in ("ScBin", "ScIdent") and op in ("div", "mod", "ident"):
+        return "C02"
+    if k in ("ScBin", "ScUn"):
+        return "C01"
+    if k == "ScCmp":
+        return "C03"
+    return "C04"
+
+
 FAMILIES = {
     "overflow": dict(jobs=overflow_jobs, attr=overflow_attr),
+    "scaled": dict(jobs=scaled_jobs, attr=scaled_attr),
 }
 
 MCS = {
@@ -129,37 +229,84 @@ MCS = {
 # ---------------------------------------------------------------------------------------------
 # per-property checks
 
+TRUSTED = ("trusted: TLC, the BigInt module (self-tested against Python big integers), the recorder's encoding of values "
+           "(raw representations are read back from the objects), UBSan trap mode for UB observation")
+
+
+def chk(families, mcs, rule, technique, level_text, level_note, assumptions=()):
+    return dict(families=families, mcs=mcs, rule=rule, technique=technique, level_text=level_text,
+                level_note=level_note + "; " + TRUSTED, assumptions=list(assumptions) or [TRUSTED])
+
+
+SCALED_RULE = ("events = one operator/conversion of the real templates on a pair of number types from the TLC-enumerated "
+               "instantiation lattice (GenLattice: reps 8..64 bit x exponents -70..70 x radix 2/10, fixed core + VERIF_SEED "
+               "sample; plus elastic/overflow/rounding/128-bit reps) x operand values (TLC boundary sets + extremes of the "
+               "type + seeded random); ")
+SCALED_TECH = ("TLA+ spec (CnlTypes + SemScaled: value = raw x radix^exponent over unbounded integers, C++ promotion rules "
+               "from CxxInt) evaluated by TLC on every recorded event (trace validation); lattice of instantiations "
+               "enumerated by TLC from the spec's admissibility rule")
+
 CHECKS = {
-    "C06": dict(
-        families=["overflow"], mcs=["overflow"],
-        rule="events = one tagged operation (operate<Op,Tag>, overflow_integer operators, convert<Tag,Dest>) on a pair of "
-             "built-in integer types x operand values (8-bit lhs exhaustive x TLC boundary set; wider: TLC boundary set^2 + "
-             "seeded random); non-trivial = exact result within 2 of a bound of the result type, or outside it",
-        assumptions=["UBSan trap mode observes every UB the sanitizer knows; other UB is not observed",
-                     "trapping is observed in-process through the JOHNMCFARLANE_CNL_VERIF abort hook"],
-        technique="TLA+ spec (SemOverflow ideal semantics + AsCodedOverflow as-coded model) checked by TLC: trace validation of "
-                  "recorded executions of the real templates + exhaustive small-machine model check (MC_Overflow)",
-        level_text="TLC evaluates the ideal overflow semantics (exact result vs. range of op_result, reaction per tag) on every "
-                   "recorded event of the real tagged operators for all 10x10 built-in type pairs, both detection paths, g++ and "
-                   "clang++; rejected events must additionally equal the as-coded model to count as the listed known findings. "
-                   "MC_Overflow proves on a scaled-down machine that the as-coded detection has no deviation outside those classes.",
-        level_note="bounded: 8-bit operands exhaustive (thorough), wider operands boundary^2 + seeded random; trusted: TLC, the "
-                   "BigInt module (self-tested against Python), UBSan trap mode, the recorder's encoding of integers"),
-    "C07": dict(
-        families=["overflow"], mcs=["overflow"],
-        rule="same recorded events as C06; judged for totality: outcome class ub:<signal> / unreachable / timeout is never "
-             "allowed under a checked tag; non-trivial = operands at the extremes or result near/outside the range",
-        assumptions=["UB is observed through -fsanitize=undefined in trap mode (g++-12 and clang++-14); UB the sanitizer "
-                     "has no check for, and reachability in the compiled IR, are not observed"],
-        technique="TLA+ spec checked by TLC: CxxInt models every C++ sub-expression of the overflow predicates with an explicit UB "
-                  "outcome (MC_Overflow, exhaustive small machine); trace validation of recorded executions (UBSan trap + "
-                  "abort/unreachable hook) rejects any ub/unreachable outcome the spec does not allow",
-        level_text="every recorded checked operation must end in a value or an overflow signal; outcome classes ub:<signal>, "
-                   "unreachable and timeout are rejected by the judge (the spec has no such action). The as-coded model evaluates "
-                   "each predicate sub-expression through CxxInt so UB inside the checker is a reachable model outcome; the model "
-                   "and the recorded executions agree event by event.",
-        level_note="dynamic observation only (no IR-level reachability); UB kinds limited to what -fsanitize=undefined traps; "
-                   "bounds as C06"),
+    "C01": chk(["scaled"], [],
+               SCALED_RULE + "non-trivial = operands of different exponent or non-zero result, inside the property's domain "
+               "(aligned operands fit their promoted rep, exact result fits the result rep)",
+               SCALED_TECH,
+               "TLC recomputes every sum, difference, product and negation exactly from the logged raw operands and checks the "
+               "logged raw result, the result exponent (min / sum rule), radix and promoted rep type of the deduced result type.",
+               "bounded: sampled lattice (quick) / 330-row lattice sample (thorough), boundary-directed operands; events outside "
+               "the stated domain are counted as skipped, never rejected"),
+    "C02": chk(["scaled"], [],
+               SCALED_RULE + "non-trivial = non-zero remainder",
+               SCALED_TECH,
+               "a/b and a%b are checked against the C++ semantics of the rep operator (CxxInt; truncated division over unbounded "
+               "integers for wrapper reps), result exponents exp(a)-exp(b) and exp(a); the identity (a/b)*b + a%b == a is "
+               "evaluated by the library itself and must be true wherever the spec says division is defined.",
+               "quotient() is not yet covered by this check; zero divisors and MIN/-1 are excluded as the property states"),
+    "C03": chk(["scaled"], [],
+               SCALED_RULE + "all six comparison results are recorded per pair; non-trivial = different exponents or mixed "
+               "signedness",
+               SCALED_TECH,
+               "the six logged results must equal the order of the denoted values (wrapper reps, elastic_integer pairs of "
+               "different width/signedness) or, for built-in reps, the built-in comparison of the exponent-aligned reps after "
+               "the usual arithmetic conversions (the statement's carve-out), under the alignment-fits guard.",
+               "wide_integer comparisons are judged with the wide family (C10)"),
+    "C04": chk(["scaled"], [],
+               SCALED_RULE + "conversions scaled<->scaled, <->built-in integers, <->float/double/long double (radix 2 for "
+               "floating point), from_rep/to_rep and wrap/unwrap round trips; non-trivial = resolution changes / significand "
+               "longer than the float's",
+               SCALED_TECH + "; IEEE round-to-nearest-even and exact dyadic truncation defined in CnlTypes",
+               "exact value when representable, truncation toward zero otherwise, RNE for integer->floating (floats are logged "
+               "exactly as sign/mantissa/exponent), identity for the round trips.",
+               "radix-10 <-> floating point is not judged (double rounding through an inexact power of ten); NaN/inf not "
+               "generated; source values outside the destination range are skipped"),
+    "C06": chk(["overflow"], ["overflow"],
+               "events = one tagged operation (operate<Op,Tag>, overflow_integer operators, convert<Tag,Dest>) on a pair of "
+               "built-in integer types x operand values (8-bit lhs exhaustive x TLC boundary set; wider: TLC boundary set^2 + "
+               "seeded random); non-trivial = exact result within 2 of a bound of the result type, or outside it",
+               "TLA+ spec (SemOverflow ideal semantics + AsCodedOverflow as-coded model) checked by TLC: trace validation of "
+               "recorded executions of the real templates + exhaustive small-machine model check (MC_Overflow)",
+               "TLC evaluates the ideal overflow semantics (exact result vs. range of op_result, reaction per tag) on every "
+               "recorded event of the real tagged operators for all 10x10 built-in type pairs, both detection paths, g++ and "
+               "clang++; rejected events must additionally equal the as-coded model to count as the listed known findings. "
+               "MC_Overflow proves on a scaled-down machine that the as-coded detection has no deviation outside those classes.",
+               "bounded: 8-bit operands exhaustive (thorough), wider operands boundary^2 + seeded random; floating-point "
+               "sources not yet covered",
+               ["UBSan trap mode observes every UB the sanitizer knows; other UB is not observed",
+                "trapping is observed in-process through the JOHNMCFARLANE_CNL_VERIF abort hook"]),
+    "C07": chk(["overflow"], ["overflow"],
+               "same recorded events as C06; judged for totality: outcome class ub:<signal> / unreachable / timeout is never "
+               "allowed under a checked tag; non-trivial = operands at the extremes or result near/outside the range",
+               "TLA+ spec checked by TLC: CxxInt models every C++ sub-expression of the overflow predicates with an explicit UB "
+               "outcome (MC_Overflow, exhaustive small machine); trace validation of recorded executions (UBSan trap + "
+               "abort/unreachable hook) rejects any ub/unreachable outcome the spec does not allow",
+               "every recorded checked operation must end in a value or an overflow signal; outcome classes ub:<signal>, "
+               "unreachable and timeout are rejected by the judge (the spec has no such action). The as-coded model evaluates "
+               "each predicate sub-expression through CxxInt so UB inside the checker is a reachable model outcome; the model "
+               "and the recorded executions agree event by event.",
+               "dynamic observation only (no IR-level reachability); UB kinds limited to what -fsanitize=undefined traps; "
+               "bounds as C06",
+               ["UB is observed through -fsanitize=undefined in trap mode (g++-12 and clang++-14); UB the sanitizer "
+                "has no check for, and reachability in the compiled IR, are not observed"]),
 }
 
 
